@@ -31,7 +31,28 @@ type qcase struct {
 	Objects []int       `json:"objects"`
 	Query   string      `json:"query"`
 	Args    [][]float64 `json:"args,omitempty"`
+	Place   []float64   `json:"placement,omitempty"` // scale, offset x y z (absent = identity)
 }
+
+// place: the whole configuration (triangles and queries) multiplied by a power of two and moved by an offset that
+// is exact in floating point. Index and linear scan use the same primitive on the same numbers, so the comparison
+// stays exact; what changes is which absolute thresholds, cancellations and roundings the pruning code meets.
+type place struct {
+	k float64
+	o c3
+}
+
+func (p place) pt(c c3) c3 { return c.Scale(p.k).Add(p.o) }
+func (p place) arr() []float64 {
+	if p.k == 1 && p.o == (c3{}) {
+		return nil
+	}
+	return []float64{p.k, p.o.X, p.o.Y, p.o.Z}
+}
+
+var identityPlace = place{1, c3{}}
+var triPlaces = []place{{1.0 / (1 << 17), c3{}}, {1 << 10, c3{}}, {1, c3{X: 1 << 24, Y: -(1 << 25), Z: 1 << 23}}, {1.0 / (1 << 10), c3{X: 64, Y: -32, Z: 128}}}
+
 
 func xyz(x, y, z float64) c3 { return model3d.XYZ(x, y, z) }
 
@@ -254,7 +275,7 @@ func checkSharedChild(r *ev.Run, set []int) {
 							gf, ok := parent.FirstRayCollision(ray)
 							if gn != wn || ok != (wn > 0) || (ok && gf.Scale != wf) {
 								r.Violation("NewJoinedCollider/shared-child", fmt.Sprintf("triangles %v as %s: parent %d of two built over this child (extras %d and %d): ray %v -> %v gives %d collisions, first %v %g; linear scan %d, first %g",
-									set, child.name, pi, ea, eb, o, ray.Direction, gn, ok, gf.Scale, wn, wf), qcase{"NewJoinedCollider(shared child)", set, "rays", [][]float64{arr(o), arr(ray.Direction)}})
+									set, child.name, pi, ea, eb, o, ray.Direction, gn, ok, gf.Scale, wn, wf), qcase{"NewJoinedCollider(shared child)", set, "rays", [][]float64{arr(o), arr(ray.Direction)}, nil})
 								return
 							}
 						}
@@ -281,7 +302,7 @@ func checkPermutation(r *ev.Run, what string, in, out []*model3d.Triangle, set [
 		}
 	}
 	if bad {
-		r.Violation("permutation/"+what, fmt.Sprintf("%s of triangle set %v is not a permutation of its input (%d in, %d out)", what, set, len(in), len(out)), qcase{what, set, "permutation", nil})
+		r.Violation("permutation/"+what, fmt.Sprintf("%s of triangle set %v is not a permutation of its input (%d in, %d out)", what, set, len(in), len(out)), qcase{what, set, "permutation", nil, nil})
 	}
 }
 
@@ -295,11 +316,11 @@ func bvhLeaves(b *model3d.BVH[*model3d.Triangle], out *[]*model3d.Triangle) {
 	}
 }
 
-func checkTriSet(r *ev.Run, set []int, rayStride int) {
+func checkTriSet(r *ev.Run, set []int, rayStride int, pl place) {
 	tris := make([]*model3d.Triangle, len(set))
 	for i, k := range set {
 		t := triAlphabet[k]
-		tris[i] = &model3d.Triangle{t[0], t[1], t[2]}
+		tris[i] = &model3d.Triangle{pl.pt(t[0]), pl.pt(t[1]), pl.pt(t[2])}
 	}
 	// construction only reorders
 	g := append([]*model3d.Triangle{}, tris...)
@@ -315,11 +336,12 @@ func checkTriSet(r *ev.Run, set []int, rayStride int) {
 	}
 	idx := buildTriIndexes(tris)
 	viol := func(ix, kind, msg string, args ...[]float64) {
-		r.Violation(ix+"/"+kind, fmt.Sprintf("triangles %v: %s", set, msg), qcase{ix, set, kind, args})
+		r.Violation(ix+"/"+kind, fmt.Sprintf("triangles %v: %s", set, msg), qcase{ix, set, kind, args, pl.arr()})
 	}
 	pruned := false
 	// rays
-	for oi, o := range rayOrigins {
+	for oi, o0 := range rayOrigins {
+		o := pl.pt(o0)
 		for di := oi % rayStride; di < len(rayDirs); di += rayStride {
 			ray := &model3d.Ray{Origin: o, Direction: rayDirs[di]}
 			var brute []model3d.RayCollision
@@ -353,8 +375,9 @@ func checkTriSet(r *ev.Run, set []int, rayStride int) {
 		}
 	}
 	// balls: radius exactly the distance to each triangle, just below, just above, and fixed
-	for _, c := range ballCenters {
-		radii := []float64{0.1, 0.5, 2}
+	for _, c0 := range ballCenters {
+		c := pl.pt(c0)
+		radii := []float64{0.1 * pl.k, 0.5 * pl.k, 2 * pl.k}
 		for _, t := range tris {
 			d := t.Dist(c)
 			radii = append(radii, d, d*(1-1e-9), d*(1+1e-9))
@@ -381,7 +404,7 @@ func checkTriSet(r *ev.Run, set []int, rayStride int) {
 		for k := 0; k < 3; k++ {
 			for ax := 0; ax < 3; ax++ {
 				for _, sg := range []float64{1, -1} {
-					for _, rad := range []float64{0.5, 1} {
+					for _, rad := range []float64{0.5 * pl.k, 1 * pl.k} {
 						var off [3]float64
 						off[ax] = sg * rad
 						c := t[k].Add(xyz(off[0], off[1], off[2]))
@@ -402,7 +425,8 @@ func checkTriSet(r *ev.Run, set []int, rayStride int) {
 			}
 		}
 	}
-	for _, s := range segs {
+	for _, s0 := range segs {
+		s := model3d.NewSegment(pl.pt(s0[0]), pl.pt(s0[1]))
 		want := false
 		for _, t := range tris {
 			if t.SegmentCollision(s) {
@@ -416,7 +440,8 @@ func checkTriSet(r *ev.Run, set []int, rayStride int) {
 			}
 		}
 	}
-	for _, rc := range rects {
+	for _, rc0 := range rects {
+		rc := model3d.NewRect(pl.pt(rc0.MinVal), pl.pt(rc0.MaxVal))
 		want := false
 		for _, t := range tris {
 			if t.RectCollision(rc) {
@@ -430,7 +455,8 @@ func checkTriSet(r *ev.Run, set []int, rayStride int) {
 			}
 		}
 	}
-	for _, q := range qtris {
+	for _, q0 := range qtris {
+		q := &model3d.Triangle{pl.pt(q0[0]), pl.pt(q0[1]), pl.pt(q0[2])}
 		var brute []model3d.Segment
 		for _, t := range tris {
 			brute = append(brute, t.TriangleCollisions(q)...)
@@ -461,7 +487,8 @@ func checkTriSet(r *ev.Run, set []int, rayStride int) {
 			s    model3d.FaceSDF
 		}{{"GroupedTrianglesToSDF(GroupTriangles)", model3d.GroupedTrianglesToSDF(g2)}, {"GroupedTrianglesToSDF(input order)", model3d.GroupedTrianglesToSDF(append([]*model3d.Triangle{}, tris...))}, {"MeshToSDF", model3d.MeshToSDF(m)}}
 		pts := append(append([]c3{}, ballCenters...), xyz(1, 1, 0.5), xyz(1, 0, 0), xyz(0.5, 0.5, 0), xyz(2, 2, 2), xyz(1, 1, 1))
-		for _, p := range pts {
+		for _, p0 := range pts {
+			p := pl.pt(p0)
 			want := math.Inf(1)
 			for _, t := range tris {
 				if d := t.Closest(p).Dist(p); d < want {
@@ -488,7 +515,7 @@ func checkTriSet(r *ev.Run, set []int, rayStride int) {
 		}
 	}
 	if pruned && len(set) > 1 {
-		r.NontrivialKey(fmt.Sprint("tri", set))
+		r.NontrivialKey(fmt.Sprint("tri", set, pl.arr()))
 	}
 }
 
@@ -503,7 +530,7 @@ func checkPointSet(r *ev.Run, set []int, queries []c3) {
 	}
 	tree := model3d.NewCoordTree(append([]c3{}, pts...))
 	viol := func(kind, msg string, args ...[]float64) {
-		r.Violation("CoordTree/"+kind, fmt.Sprintf("points %v: %s", pts, msg), qcase{"CoordTree", set, kind, args})
+		r.Violation("CoordTree/"+kind, fmt.Sprintf("points %v: %s", pts, msg), qcase{"CoordTree", set, kind, args, nil})
 	}
 	// Slice is a permutation
 	cnt := map[c3]int{}
@@ -615,7 +642,7 @@ func checkPointSet2(r *ev.Run, set []int) {
 	}
 	tree := model2d.NewCoordTree(append([]model2d.Coord{}, pts...))
 	viol := func(kind, msg string) {
-		r.Violation("2d.CoordTree/"+kind, fmt.Sprintf("points %v: %s", pts, msg), qcase{"2d.CoordTree", set, kind, nil})
+		r.Violation("2d.CoordTree/"+kind, fmt.Sprintf("points %v: %s", pts, msg), qcase{"2d.CoordTree", set, kind, nil, nil})
 	}
 	if sl := tree.Slice(); len(sl) != len(pts) {
 		viol("Slice", "Slice() has the wrong length")
@@ -708,7 +735,7 @@ func checkSegSet(r *ev.Run, set []int) {
 		}{"2d.BVHToCollider", model2d.BVHToCollider(model2d.NewBVHAreaDensity(append([]*model2d.Segment{}, ss...)))})
 	}
 	viol := func(ix, kind, msg string) {
-		r.Violation(ix+"/"+kind, fmt.Sprintf("segments %v: %s", set, msg), qcase{ix, set, kind, nil})
+		r.Violation(ix+"/"+kind, fmt.Sprintf("segments %v: %s", set, msg), qcase{ix, set, kind, nil, nil})
 	}
 	var dirs []model2d.Coord
 	for x := -1; x <= 1; x++ {
@@ -843,7 +870,7 @@ func checkObjSet(r *ev.Run, set []int, alpha []render3d.Object) {
 				c, mat, ok := ix.o.Cast(ray)
 				if ok != found || (ok && c.Scale != best) {
 					r.Violation(ix.name+"/Cast", fmt.Sprintf("objects %v, ray %v -> %v: hierarchy hit=%v at %v, nearest hit among the parts=%v at %v", set, o, d, ok, c.Scale, found, best),
-						qcase{ix.name, set, "Cast", [][]float64{arr(o), arr(d)}})
+						qcase{ix.name, set, "Cast", [][]float64{arr(o), arr(d)}, nil})
 					continue
 				}
 				if ok {
@@ -857,7 +884,7 @@ func checkObjSet(r *ev.Run, set []int, alpha []render3d.Object) {
 					}
 					if tm == nil || !good {
 						r.Violation(ix.name+"/Cast-material", fmt.Sprintf("objects %v, ray %v -> %v: material does not belong to a part hit at the nearest distance", set, o, d),
-							qcase{ix.name, set, "Cast", [][]float64{arr(o), arr(d)}})
+							qcase{ix.name, set, "Cast", [][]float64{arr(o), arr(d)}, nil})
 					}
 				}
 			}
@@ -894,7 +921,11 @@ func main() {
 		case c.Query == "Cast":
 			checkObjSet(r, c.Objects, objAlphabet())
 		default:
-			checkTriSet(r, c.Objects, 1)
+			pl := identityPlace
+			if len(c.Place) == 4 {
+				pl = place{c.Place[0], xyz(c.Place[1], c.Place[2], c.Place[3])}
+			}
+			checkTriSet(r, c.Objects, 1, pl)
 		}
 		r.Finish()
 	}
@@ -914,7 +945,18 @@ func main() {
 		if r.Thorough() {
 			stride = 1
 		}
-		ev.Parallel(len(sets), 0, func(i int) { checkTriSet(r, sets[i], stride) })
+		ev.Parallel(len(sets), 0, func(i int) { checkTriSet(r, sets[i], stride, identityPlace) })
+		// every 9th set (thorough: every 3rd) again at four placements: tiny, large, far from the origin, tiny and moved
+		pstep := 9
+		if r.Thorough() {
+			pstep = 3
+		}
+		var placed [][]int
+		for i := 0; i < len(sets); i += pstep {
+			placed = append(placed, sets[i])
+		}
+		ev.Parallel(len(placed)*len(triPlaces), 0, func(i int) { checkTriSet(r, placed[i/len(triPlaces)], 3, triPlaces[i%len(triPlaces)]) })
+		r.Set("placed_triangle_sets", len(placed)*len(triPlaces))
 		r.Set("triangle_sets", len(sets))
 		// two parents over one child: sets of 2..6 triangles (the capacity of the child's list matters)
 		var shared [][]int
@@ -925,7 +967,7 @@ func main() {
 		})
 		ev.Parallel(len(shared), 0, func(i int) { checkSharedChild(r, shared[i]) })
 		r.Set("shared_child_sets", len(shared))
-		r.Sample(qcase{"MeshToCollider", []int{0, 3, 5}, "RayCollisions", [][]float64{{-1, 0, 0}, {1, 0, 0}}})
+		r.Sample(qcase{"MeshToCollider", []int{0, 3, 5}, "RayCollisions", [][]float64{{-1, 0, 0}, {1, 0, 0}}, nil})
 	})
 	r.Isolate("points", func() {
 		var sets [][]int
@@ -944,7 +986,7 @@ func main() {
 		multisets(len(pt2Alphabet), maxPts+1, func(s []int) { s2 = append(s2, append([]int{}, s...)) })
 		sequences(len(pt2Alphabet), 3, func(s []int) { s2 = append(s2, append([]int{}, s...)) })
 		ev.Parallel(len(s2), 0, func(i int) { checkPointSet2(r, s2[i]) })
-		r.Sample(qcase{"CoordTree", []int{0, 2, 2, 6}, "KNN", [][]float64{{1, 1, 0.5}, {3}}})
+		r.Sample(qcase{"CoordTree", []int{0, 2, 2, 6}, "KNN", [][]float64{{1, 1, 0.5}, {3}}, nil})
 	})
 	r.Isolate("segments2d", func() {
 		var sets [][]int
@@ -970,7 +1012,7 @@ func main() {
 		}
 		ev.Parallel(len(sets), 0, func(i int) { checkObjSet(r, sets[i], alpha) })
 		r.Set("object_sets", len(sets))
-		r.Sample(qcase{"BVHToObject(NewBVHAreaDensity)", []int{0, 5, 3}, "Cast", [][]float64{{2, 0.2, 0}, {-1, 0, 0}}})
+		r.Sample(qcase{"BVHToObject(NewBVHAreaDensity)", []int{0, 5, 3}, "Cast", [][]float64{{2, 0.2, 0}, {-1, 0, 0}}, nil})
 	})
 	r.Finish()
 }
